@@ -141,6 +141,9 @@ def apply_step(soup, model, rng):
                 target_m['body'].extend(newm)
                 return ('append', p, [ser(x) for x in newm])
             i = rng.randint(0, len(target_m['body']))
+            if rng.random() < 0.2:
+                # past the end: list.insert clamps, the items are appended in order
+                i = len(target_m['body']) + rng.randint(1, 3)
             node.insert(i, *new)
             target_m['body'][i:i] = newm
             return ('insert', p, i, [ser(x) for x in newm])
@@ -177,7 +180,7 @@ def apply_step(soup, model, rng):
         if op == 'set_string':
             if tm['kind'] == 'cmd' and len(tm['args']) == 1 and isinstance(tm['args'][0], dict) \
                     and tm['args'][0]['kind'] == 'delim':
-                s = rng.choice(['S1', 'new str'])
+                s = rng.choice(['S1', 'new str', 'S1', 'new str', ''])
                 node.string = s
                 tm['args'][0]['body'] = [s]
                 return ('set_string', p, s)
